@@ -96,6 +96,7 @@ pub struct Ctx {
     pub crossings_after_ack: u64,
     pub modifies: u64,
     pub nacks: u64,
+    pub dup_nacks: u64,
     pub stream_acks: u64,
 }
 
@@ -266,7 +267,14 @@ pub async fn apply(seq: &mut Seq, c: &mut Ctx, letter: &str, sub: &str) {
         "nack_oldest" => {
             let ls = leases_sorted(seq, sub);
             let id = ls.first().map(|x| x.0.clone()).unwrap_or_else(|| "424244".to_string());
-            seq.modify(sub, &[id], 0).await;
+            // deliveries with an odd ack ID are nacked by a request that names the ID twice (legal;
+            // the message must return to the queue once, not once per mention)
+            if id.parse::<u64>().map(|v| v % 2 == 1).unwrap_or(false) {
+                seq.modify(sub, &[id.clone(), id], 0).await;
+                c.dup_nacks += 1;
+            } else {
+                seq.modify(sub, &[id], 0).await;
+            }
             c.nacks += 1;
         }
         "modify_oldest_30" | "modify_newest_3" | "modify_oldest_700" => {
@@ -361,6 +369,7 @@ async fn episode(p: &EpParams) -> EpReport {
         crossings_after_ack: 0,
         modifies: 0,
         nacks: 0,
+        dup_nacks: 0,
         stream_acks: 0,
     };
     seq.create_topic(&c.t.clone()).await;
@@ -425,6 +434,7 @@ async fn episode(p: &EpParams) -> EpReport {
     rep.nontrivial = (c.effective_acks > 0 && c.crossings_after_ack > 0) || c.odd_acks > 0;
     rep.add("effective_acks", c.effective_acks);
     rep.add("acks_sent_over_a_stream", c.stream_acks);
+    rep.add("nacks_naming_one_id_twice", c.dup_nacks);
     rep.add("stale_unknown_repeated_acks", c.odd_acks);
     rep.add("deadline_crossings_after_ack", c.crossings_after_ack);
     rep.key = letters.join(",");
